@@ -117,7 +117,7 @@ def gen_observances(rnd, well_separated=True):
     base = timedelta(minutes=rnd.choice([-720, -600, -480, -300, -210, 0, 60, 120, 330, 345, 540, 570, 765, 840]))
     dst = base + timedelta(minutes=rnd.choice([60, 60, 30, 120]))
     y0 = rnd.randint(1970, 2010)
-    names = rnd.choice([("STD", "DST"), ("CET", "CEST"), (None, None), ("X", None)])
+    names = rnd.choice([("STD", "DST"), ("CET", "CEST"), (None, None), ("X", None), ("+07", "+07")])       # (one name for both kinds happens: Novokuznetsk)
     hour = rnd.choice([1, 2, 3])
     if shape in ("pair_rrule", "pair_until", "pair_count"):
         m1, m2 = rnd.choice([(3, 10), (4, 9), (10, 3), (3, 11)])
